@@ -103,6 +103,14 @@ def discrete_case(col, rng):
     y = lsl.obs(rng.normal(size=4).astype(np.float32) + 1.5, lsl.Dist(tfd.Normal, loc=loc, scale=0.8), name="y")
     model = lsl.GraphBuilder().add(y).build_model()
     kernel = finite_discrete_gibbs_kernel("k", model)
+    # building the kernel must leave the user's model as it was: values assigned to it afterwards still refresh what depends on them
+    model.vars["m"].value = np.float32(0.9)
+    stale = [n.name for n in model.nodes.values() if n.outdated]
+    if not model.auto_update or stale or float(model.vars["loc"].value) != float(values[0] * 1.5 + np.float32(0.9)):
+        col.add({"sig": "native::gibbs::finite_discrete_side_effect", "what": f"after finite_discrete_gibbs_kernel('k', model): model.auto_update = {model.auto_update}; assigning m = 0.9 leaves outdated nodes {stale}, "
+                 f"loc = {float(model.vars['loc'].value)}", "input": {"outcomes": values}})
+        return
+    model.vars["m"].value = np.float32(0.3)
     before = float(model.vars["m"].value)
     work = lsl.GraphBuilder().add(*[]).build_model() if False else None
     model2 = model  # coherent state with another m
@@ -194,6 +202,35 @@ def large_grid_case(col, rng, n_out):
         return
     want = float(values[int(orig(key, jnp.asarray(seen[0], jnp.float32)))])
     col.add(None if draw == want else {"sig": "native::gibbs::finite_discrete_large_grid", "what": f"{n_out} outcomes: draw {draw}, outcomes[categorical(key, logits)] = {want}", "input": inp})
+
+
+def logits_prior_case(col, rng):
+    """the outcome grid taken from a FiniteDiscrete prior given by LOGITS, one of them very negative (-120: prior probability 0 in float32, log-probability finite)
+    and compensated by the likelihood: the kernel still evaluates EVERY outcome of the prior - one logit per outcome, equal to the joint log-density"""
+    values = np.array([0.0, 1.0, 2.0], np.float32)
+    k = lsl.Var(jnp.float32(0.0), lsl.Dist(tfd.FiniteDiscrete, outcomes=jnp.asarray(values), logits=jnp.asarray([0.0, -120.0, -1.0], jnp.float32)), name="k")
+    y = lsl.obs(jnp.float32(1.0), lsl.Dist(tfd.Normal, loc=lsl.Calc(lambda kk: jnp.asarray(kk, jnp.float32), k), scale=jnp.float32(0.0645)), name="y")  # log N(1 | 0, s) - log N(1 | 1, s) = -120.2
+    model = lsl.GraphBuilder().add(y).build_model()
+    kernel = finite_discrete_gibbs_kernel("k", model)  # outcomes=None: taken from the prior
+    iface = gs.LieselInterface(model)
+    state = model.state
+    joint = np.array([float(iface.log_prob(iface.update_state({"k": jnp.float32(v)}, state))) for v in values], dtype=np.float64)
+    seen = []
+    orig = jax.random.categorical
+
+    def spy(key, logits, *a, **kw):
+        seen.append(np.asarray(logits, dtype=np.float64))
+        return orig(key, logits, *a, **kw)
+
+    jax.random.categorical = spy
+    try:
+        draws = [float(kernel._transition_fn(jax.random.PRNGKey(int(rng.integers(0, 2**31))), state)["k"]) for _ in range(40)]
+    finally:
+        jax.random.categorical = orig
+    ok = bool(seen) and seen[0].shape == (3,) and np.allclose(seen[0] - seen[0][0], joint - joint[0], atol=5e-2) and 1.0 in draws
+    col.add(None if ok else {"sig": "native::gibbs::finite_discrete_logits_prior", "what": f"prior logits [0, -120, -1] with a likelihood favouring the middle outcome by +120: the sampler received logits of shape "
+                             f"{seen[0].shape if seen else None} (joint log-densities {np.round(joint - joint[0], 2).tolist()}); outcome 1.0 drawn {draws.count(1.0)} times in 40",
+                             "input": {"outcomes": values.tolist(), "prior_logits": [0.0, -120.0, -1.0]}})
 
 
 def tiny_scale_case(col, rng):
@@ -323,6 +360,11 @@ def bounded(tier, seed):
                 col.add({"sig": f"native::gibbs::exception::{type(e).__name__}", "what": str(e)[:200], "input": {"scenario": "large outcome grid", "n": n_out}})
             n += 1
         try:
+            logits_prior_case(col, rng)
+        except Exception as e:
+            col.add({"sig": f"native::gibbs::exception::{type(e).__name__}", "what": str(e)[:200], "input": {"scenario": "logits prior"}})
+        n += 1
+        try:
             two_smooths_case(col, rng)
         except Exception as e:
             col.add({"sig": f"native::gibbs::exception::{type(e).__name__}", "what": str(e)[:200], "input": {"scenario": "two smooths in one model"}})
@@ -356,6 +398,6 @@ def bounded(tier, seed):
     return {"evaluations": col.evals, "distinct_nontrivial": n,
             "rule": (CORE_RULE + "; " + f"BOUNDED: DistRegBuilder models with a full-rank and a rank-deficient (second-difference) penalty, hyperparameters a, b left as built or changed AFTER the kernel was created, plus a penalty scaled by 1e-7 and a full-rank penalty with one eigenvalue of 1e-8 (rank by matrix_rank vs. eigenvalue thresholds): "
                      "the kernel's draw for a fixed key equals b*/gamma(key, a*) with a* = a + rank/2, b* = b + beta'K beta/2 from the state, and model log-density minus log IG(a*, b*) is constant "
-                     "over a tau2 grid; two smooths with different penalties and hyper-parameters in one model, kernels used in both orders; finite-discrete kernel on outcome grids of 150 / 128 points (one logit per outcome, captured at the sampler); finite-discrete kernel on k ~ FiniteDiscrete with a downstream Normal likelihood: draw = outcomes[categorical(key, joint log-densities)], eager and jit; a model in which the discrete variable parameterises the prior of a parameter and the distribution of an unflagged variable (logits captured at jax.random.categorical and compared with the joint log-density up to a constant); the same for a Bernoulli variable with derived and with explicitly given (unsorted) outcomes. "
+                     "over a tau2 grid; two smooths with different penalties and hyper-parameters in one model, kernels used in both orders; finite-discrete kernel with the grid taken from a logits-parameterised prior with a float32-zero-probability outcome; finite-discrete kernel on outcome grids of 150 / 128 points (one logit per outcome, captured at the sampler); finite-discrete kernel on k ~ FiniteDiscrete with a downstream Normal likelihood: draw = outcomes[categorical(key, joint log-densities)], eager and jit; a model in which the discrete variable parameterises the prior of a parameter and the distribution of an unflagged variable (logits captured at jax.random.categorical and compared with the joint log-density up to a constant); the same for a Bernoulli variable with derived and with explicitly given (unsorted) outcomes. "
                      f"Both kernels also through GibbsKernel.transition with integer start values (stored value = draw). The sampling distributions themselves are not tested (sampler primitives trusted). seed={seed}, {reps} repetition(s)."),
             "samples": [{"hyperparameters_changed_after_kernel_creation": True, "rank_deficient": True}], "exhaustive": False, "violations": col.violations}
